@@ -191,6 +191,31 @@ def run(ctx) -> None:
             ctx.count("attenuated.calls")
             ctx.count("attenuated.sampling_step_history_calls")
             ctx.case(f"history|{kind}|{axis}|{'second' if tt is pair[1][0] else 'first'}")
+    # whole-number observations in every integer dtype (raw counts): the spread of the series is a number, whatever the
+    # storage width (max - min of int8 data may exceed 127, a uint8 difference never wraps)
+    for _ in range(ctx.pick(80, 400)):
+        n = rng.choice([2, 3, 5, 9, 20])
+        lo_, hi_ = rng.choice([(-100, 100), (0, 250), (-30000, 30000), (0, 60000), (0, 4_000_000_000), (-5, 5)])
+        xs = [rng.randrange(lo_, hi_ + 1) for _ in range(n)]
+        if rng.random() < 0.5:
+            xs[0], xs[-1] = lo_, hi_
+        fx = [float(v) for v in xs]
+        kind = rng.choice(["std", "range"])
+        spread_ = max(xs) - min(xs)
+        st, ft = rng.choice([(spread_ + 1, spread_ / 2 + 0.5), (spread_ * 2 + 1, spread_ + 0.5), (1.0, 0.25)])
+        period = rng.choice([None, None, 3 * 60])
+        tt = gen.regular(n, 60)
+        for cname, arr_ in gen.int_carriers(xs):
+            kw = {"inp": arr_, "tinp": gen.times(tt), "suspect_threshold": st, "fail_threshold": ft, "check_type": kind}
+            if period:
+                kw["test_period"] = period
+            client.expect(ctx, "C12", "qartod.attenuated_signal_test", kw,
+                          lambda: models.attenuated(fx, tt, st, ft, period, None, None, kind),
+                          logical={"x": xs, "t": "regular 60 s", "suspect_threshold": st, "fail_threshold": ft, "test_period": period,
+                                   "check_type": kind, "carrier": cname}, hist=f"attenuated.{kind}")
+            ctx.count("attenuated.calls")
+            ctx.count("attenuated.integer_dtype_calls")
+            ctx.case(f"int-dtype|{cname}|{kind}|{'window' if period else 'whole'}")
     if ctx.shard == 0:
         for bad in ("STD", "stdev", "", "ptp", None, 1):
             kw = {"inp": gen.arr([1.0, 2.0, 3.0]), "tinp": gen.times(gen.regular(3, 60)), "suspect_threshold": 1,
